@@ -285,8 +285,9 @@ package stats
 //@   ensures len(x1) != len(x2) ==> r == nil && err == ErrMismatchedSamples
 //@   ensures len(x1) == len(x2) && len(x1) <= 1 ==> r == nil && err == ErrSampleSize
 //@   ensures err == nil ==> r != nil && len(x1) == len(x2) && len(x1) > 1 && r.N1 == len(x1) && r.N2 == len(x2) && r.AltHypothesis == alt && bits(r.DoF, float64(len(x1) - 1)) && bits(r.P, tailP(alt, r.T, r.DoF))
-//@   ensures err == nil ==> exists d []float64 witness diff :: len(d) == len(x1) && (forall i int :: 0 <= i < len(d) ==> bits(d[i], x1[i] - x2[i])) &&
-//@             bits(r.T, (meanTo(d, len(d)) - mu0) * math.Sqrt(float64(len(x1))) / math.Sqrt(m2To(d, len(d)) / float64(len(d) - 1)))
+//@   ensures len(x1) == len(x2) && len(x1) > 1 ==> exists d []float64 witness diff :: len(d) == len(x1) && (forall i int :: 0 <= i < len(d) ==> bits(d[i], x1[i] - x2[i])) &&
+//@             (err != nil <==> math.Sqrt(m2To(d, len(d)) / float64(len(d) - 1)) == 0.0) &&
+//@             (err == nil ==> bits(r.T, (meanTo(d, len(d)) - mu0) * math.Sqrt(float64(len(x1))) / math.Sqrt(m2To(d, len(d)) / float64(len(d) - 1))))
 //@   ensures err != nil && len(x1) == len(x2) && len(x1) > 1 ==> r == nil && err == ErrZeroVariance
 //@   loop 1:
 //@     invariant 0 <= idx() <= len(x1) && len(diff) == len(x1) && fresh(diff) && unchanged(diff) && dof == float64(len(x1) - 1)
